@@ -27,6 +27,11 @@ import (
 	"verifharness/core"
 )
 
+// errCause is the custom cause given to WithCancelCause / WithTimeoutCause
+// contexts: stream operations must still report ctx.Err() (context.Canceled /
+// context.DeadlineExceeded), not the cause.
+var errCause = errors.New("vh-c19: caller's private cancellation cause")
+
 const (
 	returnBound = 2 * time.Second // generous bound on "promptly"
 	watchdog    = 3 * time.Second
@@ -40,6 +45,7 @@ type mode struct {
 	Deadline bool   `json:"deadline,omitempty"`
 	Real     bool   `json:"real_pipe_block,omitempty"`
 	Async    bool   `json:"async_cancel,omitempty"` // cancel from a timer goroutine a little after the stall began
+	Cause    bool   `json:"with_cause,omitempty"`   // context made by WithCancelCause / WithTimeoutCause with a custom cause
 }
 
 type obs struct {
@@ -48,6 +54,7 @@ type obs struct {
 	ErrText   string `json:"err_text,omitempty"`
 	CtxErr    bool   `json:"is_ctx_err"`
 	InjErr    bool   `json:"is_injected_err"`
+	CauseErr  bool   `json:"is_cause_err,omitempty"`
 	Closed    bool   `json:"closed"`
 	Ops       int    `json:"ops"`
 	OpsLater  int    `json:"ops_later"`
@@ -98,9 +105,15 @@ func runOne(sh *shape, m mode) (obs, error) {
 	case "bgerr", "bgok":
 		ctx = context.Background()
 	default:
-		if m.Deadline {
+		switch {
+		case m.Deadline && m.Cause:
+			ctx, cancel = context.WithTimeoutCause(context.Background(), 300*time.Millisecond, errCause)
+		case m.Deadline:
 			ctx, cancel = context.WithTimeout(context.Background(), 300*time.Millisecond)
-		} else {
+		case m.Cause:
+			c2, cn := context.WithCancelCause(context.Background())
+			ctx, cancel = c2, func() { cn(errCause) }
+		default:
 			ctx, cancel = context.WithCancel(context.Background())
 		}
 	}
@@ -108,7 +121,11 @@ func runOne(sh *shape, m mode) (obs, error) {
 	switch m.Timing {
 	case "before":
 		doCancel()
-		if m.Deadline {
+		if m.Deadline && m.Cause {
+			c2, cn := context.WithDeadlineCause(context.Background(), time.Now().Add(-time.Second), errCause)
+			defer cn()
+			ctx = c2
+		} else if m.Deadline {
 			c2, cn := context.WithDeadline(context.Background(), time.Now().Add(-time.Second))
 			defer cn()
 			ctx = c2
@@ -180,9 +197,10 @@ func runOne(sh *shape, m mode) (obs, error) {
 			if len(o.ErrText) > 160 {
 				o.ErrText = o.ErrText[:160]
 			}
-			if ce := ctx.Err(); ce != nil && errors.Is(r.err, ce) {
+			if ce := ctx.Err(); ce != nil && errors.Is(r.err, ce) && (errors.Is(r.err, context.Canceled) || errors.Is(r.err, context.DeadlineExceeded)) {
 				o.CtxErr = true
 			}
+			o.CauseErr = errors.Is(r.err, errCause)
 			o.InjErr = errors.Is(r.err, errInjected)
 		}
 	case <-time.After(watchdog):
@@ -262,7 +280,7 @@ func judge(sh *shape, m mode, nops int, o obs) (key, why string) {
 			return "slow", fmt.Sprintf("%s: returned %d ms after the cancellation", id, o.ElapsedMs)
 		}
 		if sh.plain && !o.CtxErr {
-			return "error-class", id + ": plain stream operation returned an error that is not the context's own: " + o.ErrText
+			return "error-class", id + ": plain stream operation returned an error that is not the context's own (ctx.Err(): context.Canceled / context.DeadlineExceeded): " + o.ErrText
 		}
 		if m.Timing == "during" && !o.Reached {
 			// a deadline that expired before call k was reached (loaded machine): an
@@ -318,7 +336,7 @@ func quiet() {
 
 func gen(c *core.Ctx) error {
 	quiet()
-	c.Rule("every exchange shape (plain frames, AES frames, typed messages, secret+file, handshakes: no-auth clear/AES, CLAIMTOBE, FS, FS|CLAIMTOBE, TOKEN, resumed session; each followed by a request/reply) is run on the real code on both roles over an instrumented connection; a reference run counts the connection-level calls N of the instrumented side; then for EVERY k<N call k is made to stall for ever and the context is cancelled (synchronously, from a timer, by deadline; stall inside a channel wait or inside a real net.Pipe call); also: context cancelled beforehand, cancelled right after call k completed, cancelled after completion, context.Background() undisturbed and with the connection failing from call k. non-trivial = a during/between case (stall or cancellation in the middle of the exchange); distinct by (shape, role, timing, k, variant)")
+	c.Rule("every exchange shape (plain frames, AES frames, typed messages, secret+file, handshakes: no-auth clear/AES, CLAIMTOBE, FS, FS|CLAIMTOBE, TOKEN, resumed session; each followed by a request/reply) is run on the real code on both roles over an instrumented connection; a reference run counts the connection-level calls N of the instrumented side; then for EVERY k<N call k is made to stall for ever and the context is cancelled (synchronously, from a timer, by deadline; with plain contexts and with WithCancelCause / WithTimeoutCause contexts carrying a custom cause - the error must still be ctx.Err(); stall inside a channel wait or inside a real net.Pipe call); also: context cancelled beforehand, cancelled right after call k completed, cancelled after completion, context.Background() undisturbed and with the connection failing from call k. non-trivial = a during/between case (stall or cancellation in the middle of the exchange); distinct by (shape, role, timing, k, variant)")
 	c.Assume("closing a net.Conn makes a blocked Read/Write return (exercised on net.Pipe, a TCP loopback pair and the harness connection, not provable in the model)")
 	c.Assume("promptness is measured against a 2 s bound, not proved")
 	assumptionProbe(c)
@@ -353,14 +371,19 @@ func gen(c *core.Ctx) error {
 			add(mode{Timing: "after"})
 			add(mode{Timing: "before"})
 			add(mode{Timing: "before", Deadline: true})
+			add(mode{Timing: "before", Cause: true})
+			add(mode{Timing: "before", Deadline: true, Cause: true})
 			for k := 0; k < n; k++ {
 				variant := k % 4
-				add(mode{Timing: "during", K: k, Async: variant == 1, Real: variant == 2, Deadline: variant == 3})
+				add(mode{Timing: "during", K: k, Async: variant == 1, Real: variant == 2, Deadline: variant == 3, Cause: (k/4)%2 == 1})
+				if sh.plain {
+					add(mode{Timing: "during", K: k, Cause: true, Deadline: k%2 == 1})
+				}
 				if !c.Quick() || n <= 24 || k%3 == int(c.Seed%3) {
-					add(mode{Timing: "during", K: k, Async: true, Real: true})
+					add(mode{Timing: "during", K: k, Async: true, Real: true, Cause: k%2 == 0})
 					add(mode{Timing: "during", K: k, Deadline: true, Real: variant%2 == 0})
 				}
-				add(mode{Timing: "between", K: k})
+				add(mode{Timing: "between", K: k, Cause: k%2 == 1})
 				if !c.Quick() || n <= 24 || k%2 == int(c.Seed%2) {
 					add(mode{Timing: "bgerr", K: k})
 				}
@@ -417,7 +440,10 @@ func gen(c *core.Ctx) error {
 			c.Count("error:none")
 		}
 		if j.m.Timing == "during" || j.m.Timing == "between" {
-			c.Nontrivial(fmt.Sprintf("%s|%d|%s|%d|%v%v%v", j.m.Shape, j.m.Role, j.m.Timing, j.m.K, j.m.Deadline, j.m.Real, j.m.Async))
+			c.Nontrivial(fmt.Sprintf("%s|%d|%s|%d|%v%v%v%v", j.m.Shape, j.m.Role, j.m.Timing, j.m.K, j.m.Deadline, j.m.Real, j.m.Async, j.m.Cause))
+			if j.m.Cause {
+				c.Count("context:with-cause")
+			}
 			if o.ElapsedMs > worst {
 				worst = o.ElapsedMs
 			}
